@@ -619,10 +619,14 @@ func main() {
 		h.workdir = os.TempDir()
 	}
 	os.MkdirAll(h.workdir, 0o755)
-	// stale scratch directories of a killed run
-	if old, _ := filepath.Glob(filepath.Join(h.workdir, "c20-*")); len(old) > 0 {
+	// stale scratch directories / binaries of a killed run (older than two hours: a concurrent run of this
+	// check may share the directory)
+	for _, pat := range []string{"c20-*", "gql-client-gen-under-test.*"} {
+		old, _ := filepath.Glob(filepath.Join(h.workdir, pat))
 		for _, o := range old {
-			os.RemoveAll(o)
+			if fi, err := os.Stat(o); err == nil && time.Since(fi.ModTime()) > 2*time.Hour {
+				os.RemoveAll(o)
+			}
 		}
 	}
 	if err := initStub(); err != nil {
@@ -630,7 +634,7 @@ func main() {
 		os.Exit(2)
 	}
 	// the real binary, built from the working tree
-	h.tool = filepath.Join(h.workdir, "gql-client-gen-under-test")
+	h.tool = filepath.Join(h.workdir, fmt.Sprintf("gql-client-gen-under-test.%d", os.Getpid()))
 	os.Remove(h.tool)
 	build := exec.Command("go", "build", "-o", h.tool, "./cmd/gql-client-gen")
 	build.Dir = repo
@@ -805,7 +809,11 @@ func (h *harness) account(r *caseResult) {
 		}
 		return false, ""
 	}
-	if h.model != nil {
+	if f := r.first(); f != nil && findingKey(r, f) != "" && h.model != nil {
+		// the case is reported as a known finding of the property; its (consequential) correspondence
+		// differences — e.g. output that does not even parse into the modelled shape — are not counted
+		run.Oblige("gen-correspondence (declarations / error classes: model vs go/ast of the binary's output)", "correspondence", 1, true, "")
+	} else if h.model != nil {
 		bad, what := hasMode("correspondence", "gen-diff")
 		run.Oblige("gen-correspondence (declarations / error classes: model vs go/ast of the binary's output)", "correspondence", 1, !bad, what)
 		if r.decoded > 0 {
